@@ -4,7 +4,10 @@ import MosnVerif.Model.FilterSpec
 Driver of C14.  Case line (harness/c14):
 
   C14 ch <recv chain> <send chain> route=<r,…> host=<0|1,…> pool=<ok|overflow|connfail>
-         oneway=<0|1> body=<0|1> trl=<0|1> up=<r<code>:<data>:<trailers> | reset | term<code>>
+         oneway=<0|1> body=<0|1> trl=<0|1> up=<r<code>:<data>:<trailers> | reset | term<code> | termr<code> | st<code>/<up>>
+               termr<code>: TerminateStream with an in-flight upstream response landing inside the call — the same upstream event
+               as term<code> (theorem terminate_wins_or_loses_atomically); st<code>/<up>: TerminateStream on a kept handler of
+               an earlier, finished request, then <up> — the same as <up> alone (theorem stale_terminate_ignored)
          [retry=<retry_on 0|1>:<num_retries>:<code.code…|->]  =>  <tokens…>
   retry        present: the route carries that retry policy and proxy_disable_retry is NOT set; absent: retries disabled
 
@@ -14,6 +17,9 @@ Driver of C14.  Case line (harness/c14):
   send chain   `-` or filters separated by `;`, each a `/`-separated list of statuses.
   route / host `,`-separated per invocation (the last entry repeats): route `f` found | `n` none | `d<code>` / `db<code>` direct rule.
   tokens       f:<i>:<b|r|c>  fs:<i>  un  uf  dh:<status|->:<0|1>  dd:<0|1>  dt   (indices are chain-local)
+  own=<h>/<d>/<t>  (implementation only, evaluated by the predicate) the answer each downstream part belongs to:
+               f<i> scripted receiver filter i, a0 the upstream response, l a reply MOSN generated itself (or an untagged one), - absent
+  tm=<0|1|->   (implementation only) the return value of the asynchronous TerminateStream call of the case (`-`: none made)
 -/
 namespace MosnVerif.Drive.C14
 open MosnVerif.Drive MosnVerif.Gen.FilterPhase MosnVerif.Model.FilterChain MosnVerif.Model.FilterMachine
@@ -82,6 +88,15 @@ def seqFn {α} (dflt : α) (l : List α) : Nat → α := fun k => l.getD (min k 
 
 def parseUp (s : String) : Option UpEvent :=
   if s == "reset" then some .reset
+  else if s.startsWith "st" then
+    match (s.drop 2).toString.splitOn "/" with
+    | [_, rest] =>
+      if rest == "reset" then some .reset
+      else match (rest.drop 1).toString.splitOn ":" with
+        | [c, d, t] => if rest.startsWith "r" then c.toNat?.map (fun k => .resp k (d == "1") (t == "1")) else none
+        | _ => none
+    | _ => none
+  else if s.startsWith "termr" then (s.drop 5).toNat?.map .terminate
   else if s.startsWith "term" then (s.drop 4).toNat?.map .terminate
   else if s.startsWith "r" then
     match (s.drop 1).toString.splitOn ":" with
@@ -136,6 +151,57 @@ def showRaw : Raw → String
   | .dd e => s!"dd:{if e then 1 else 0}"
   | .dt => "dt"
 
+/-- chain-local indices of the real (untagged) filters: `builtin=<i>:<kind>,…` -/
+def builtinIdx (toks : List String) : List Nat :=
+  match kv "builtin" toks with
+  | none => []
+  | some v => (v.splitOn ",").filterMap (fun p => (p.splitOn ":").head?.bind String.toNat?)
+
+/-- the receiver filter whose handler call is the stored answer: the last hijack / direct response wins; a handler
+TerminateStream answers only when nothing is stored yet (its reply carries the request headers: untagged) -/
+def lastAnswer : List Obs → Option (Nat × Bool) → Option (Nat × Bool)
+  | [], acc => acc
+  | .f i _ v :: r, acc =>
+    lastAnswer r (match v.act with
+      | .hijack _ _ => some (i, true)
+      | .direct => some (i, true)
+      | .terminate _ => if acc.isSome then acc else some (i, false)
+      | .none => acc)
+  | _ :: r, acc => lastAnswer r acc
+
+/-- clause on the answer tokens (declarative, case + implementation tokens only): data and trailers written downstream
+belong to the answer whose headers were written; when a scripted receiver filter answered, the headers are THAT filter's -/
+def ownClause (envToks : List String) (obs : List Obs) (own : Option String) : Bool :=
+  match own with
+  | none => false
+  | some o =>
+    match o.splitOn "/" with
+    | [h, d, t] =>
+      (d == "-" || d == h) && (t == "-" || t == h) && (h != "-" || (d == "-" && t == "-")) &&
+      (match lastAnswer obs none with
+       | some (i, tagged) =>
+         h == "-" || (if tagged && !(builtinIdx envToks).contains i then h == s!"f{i}" else h == "l")
+       | none => true)
+    | _ => false
+
+/-- clause on the asynchronous TerminateStream of the case (declarative): a call on the kept handler of an earlier request
+(`st…`) returns false; an accepted call (`term` / `termr`: also with an upstream response landing inside it) is answered with
+exactly the header-only local reply `code` — unless the request is one-way or a filter returned the termination status
+(a terminated stream gets no reply by definition) -/
+def termClause (envToks implToks : List String) (obs : List Obs) (own tm : Option String) : Bool :=
+  let terminated := obs.any (fun o => match o with
+    | .fs _ st => st == .termination
+    | .f _ _ v => v.status == .termination
+    | _ => false)
+  match kv "up" envToks, tm with
+  | some up, some r =>
+    if up.startsWith "st" then r == "0"
+    else if up.startsWith "term" && r == "1" && !terminated && kv "oneway" envToks == some "0" then
+      let code := if up.startsWith "termr" then (up.drop 5).toString else (up.drop 4).toString
+      implToks.filter (fun t => t.startsWith "d" && !t.startsWith "done=") == [s!"dh:{code}:1"] && own == some "l/-/-"
+    else true
+  | _, _ => false
+
 def chain (recv send : String) (envToks impl : List String) : String :=
   match parseRecv recv, parseSend send, parseEnv envToks with
   | some r, some sd, some env =>
@@ -145,11 +211,14 @@ def chain (recv send : String) (envToks impl : List String) : String :=
     -- a run the model hands to the retry path (the request is sent upstream again) carries the marker `retried`: the
     -- harness generates no such case, an implementation line never has the token
     let modelToks := model.map showRaw ++ (if fin.retried then ["retried"] else []) ++ [if fin.cleaned then "done=1" else "done=0"]
-    let implToks := if impl == ["-"] then [] else impl
+    let implAll := if impl == ["-"] then [] else impl
+    let own := (implAll.find? (fun t => t.startsWith "own=")).map (fun t => (t.drop 4).toString)
+    let tm := (implAll.find? (fun t => t.startsWith "tm=")).map (fun t => (t.drop 3).toString)
+    let implToks := implAll.filter (fun t => !t.startsWith "own=" && !t.startsWith "tm=")
     let agree := modelToks == implToks
     -- the property predicate on the implementation's tokens (independent of the model run)
     let sp := match (implToks.filter (fun t => !t.startsWith "done=")).mapM parseRaw with
-      | some raws => spec c (annot c raws)
+      | some raws => spec c (annot c raws) && ownClause envToks (annot c raws) own && termClause envToks implToks (annot c raws) own tm
       | none => false
     s!"{if agree then "A" else "D"} {if sp then "S" else "V"} {joinWith "," modelToks}"
   | _, _, _ => "E E bad-case"
